@@ -1,6 +1,6 @@
 import extract
 import callgraph
-from rules import c19, recursion, bufbudget, common
+from rules import c19, c04c, recursion, bufbudget, common
 
 
 def run(res, tier, replay=None):
@@ -10,6 +10,9 @@ def run(res, tier, replay=None):
     cg = callgraph.CallGraph(prog)
     recursion.run(prog, res, "C19", "C19.b", roots=None, floor=2, cg=cg, only_units={"json.c"})
     bufbudget.run(prog, res, "C19", "C19.c", {"json.c"}, floor=1)
+    c04c.run_bounds(prog, res, "C19", "C19.d", {"json.c"}, floor=0)
+    c04c.run_fromdouble(prog, res, "C19", "C19.e", {"json.c"}, floor=0)
+    c04c.bounds_witnesses(prog, res)
     res.assumptions = common.ASSUMPTIONS
     res.explanation = (
         "C19 structural clauses: (a) for every generated accessor stub of lib/scheme/bytevector.stub and "
@@ -17,10 +20,12 @@ def run(res, tier, replay=None):
         "offset to an accessor helper, the helper's access width (memcpy size / indexed element size, summarised through the "
         "static helpers) and the branch conditions dominating the call must imply 0 <= off and off + width <= length of the "
         "same object (uniform vectors: 0 <= i < uvector-length of the same vector); (b) the recursion cycles of lib/chibi/json.c "
-        "go through a verified depth bound; (c) growable string buffers of json.c: the index advances by at most K between two evaluations of the growth guard `i + K >= size`. Not decided: encode/decode inverses, base64/QP/URI/CSV (Scheme), mini-floats.")
+        "go through a verified depth bound; (c) growable string buffers of json.c: the index advances by at most K between two evaluations of the growth guard `i + K >= size`. (d) the JSON number reader compares its double against SEXP_MAX_FIXNUM with the operator that stays correct under rounding of that constant; (e) no fixnum is boxed from a double accumulator unless a comparison holding on every path bounds its magnitude by 2^53 (a JSON integer must not lose its low bits on the way in). Not decided: encode/decode inverses, base64/QP/URI/CSV (Scheme), mini-floats.")
     if tier == "thorough":
         common.thorough_mutations(res, "C19", {
             "C19.a": lambda p, r: c19.run_a(p, r, floor=0),
             "C19.c": lambda p, r: bufbudget.run(p, r, "C19", "C19.c", {"json.c"}, floor=0),
             "C19.b": lambda p, r: recursion.run(p, r, "C19", "C19.b", roots=None, floor=0, only_units={"json.c"}),
+            "C19.d": lambda p, r: c04c.run_bounds(p, r, "C19", "C19.d", {"json.c"}, floor=0),
+            "C19.e": lambda p, r: c04c.run_fromdouble(p, r, "C19", "C19.e", {"json.c"}, floor=0),
         })
